@@ -163,6 +163,7 @@ void fold_tree(node* n, const execution_data& ed) {
         __TBB_ASSERT(n, nullptr);
         __TBB_ASSERT(n->m_ref_count.load(std::memory_order_relaxed) > 0, "The refcount must be positive.");
         call_itt_task_notify(releasing, n);
+        __TBB_VERIF_POINT(vp_fold_tree_dec, n, 0);
         if (--n->m_ref_count > 0) {
             return;
         }
